@@ -431,6 +431,12 @@ def imported(ctx, rule_fn, *args):
                     ctx.rule_min[r] = min(ctx.rule_min[r], 1)
     except AnalysisError as e:
         ctx.note("imported premise %s.%s not analysable on this tree: %s" % (rule_fn.__module__.split(".")[-1], rule_fn.__name__, str(e)[:200]))
+        # a necessary condition of this property that cannot be analysed leaves the property undecided here too: with no
+        # violation established by the other rules the check answers ANALYSIS-ERROR, not "held" (the sibling that owns
+        # the rule reports the same error under its own id)
+        if not hasattr(ctx, "deferred"):
+            ctx.deferred = []
+        ctx.deferred.append(AnalysisError("premise %s.%s cannot be analysed on this tree: %s" % (rule_fn.__module__.split(".")[-1], rule_fn.__name__, str(e)[:300])))
         # the vacuity guard of an imported rule is the sibling's business
         for r in list(ctx.rule_min):
             if sum(1 for o in ctx.obligations if o["rule"] == r) < ctx.rule_min[r] and getattr(ctx, "_own_rules", None) is not None and r not in ctx._own_rules:
